@@ -347,15 +347,20 @@ def bsStmt (pending : Option Batch) (f : Faults) (x : BS) (stmt : List String) :
       match storePending x.db b f x.ctr.acalls with
       | some db' => { x with db := db', err := none }
       | none => { x with err := some .errStore }
-  | ["iferr", _, rets] =>
+  | ["iferr", _, "nil", "nil", _] =>
+    -- `if err != nil { return nil, nil, <some error> }`: the signature variables are not handed out
     match x.err with
     | none => x
-    | some e =>
-      -- an error return that hands out the signature variables would be a release
-      if rets = "nil,nil,err" ∨ rets = "nil,nil,fmt.Errorf()" then { x with done := some e }
-      else { x with done := some (.ok x.sigs x.nonces) }
-  | ["return", "sig,nonces,nil"] => { x with done := some (.ok x.sigs x.nonces) }
-  | ["return", _] => { x with done := some (.ok [] []) }
+    | some e => { x with done := some e }
+  | "iferr" :: _ =>
+    -- an error return that hands out the signature variables would be a release
+    match x.err with
+    | none => x
+    | some _ => { x with done := some (.ok x.sigs x.nonces) }
+  | ["return", "m.batchSigner.Sign#0", "m.batchSigner.Sign#1", "nil"] =>
+    -- locals are named by the call that defined them: the two results of `m.batchSigner.Sign`
+    { x with done := some (.ok x.sigs x.nonces) }
+  | "return" :: _ => { x with done := some (.ok [] []) }
   | _ => x
 
 def batchSignWith (prog : List (List String)) (s : St) (f : Faults) : St × SignOut :=
@@ -500,18 +505,21 @@ inductive HStmt
   | skip                        -- anything without an effect the model tracks
 deriving DecidableEq, Repr
 
+/- Locals appear under the name of the call that defined them (`s.orderManager.PendingBatch#0` is the `batch`
+variable, `s.orderManager.BatchSign#0/#1` the signatures / nonces), helper methods of the same receiver in tail
+position are inlined by the extractor, error values are `<err>`. -/
 def parseH : List String → HStmt
   | ["call", "s.orderManager.PendingBatch", _] => .pendingCall
-  | ["ifnil", "batch", calls, _] => .ifnilBatch (calls == "s.sendRejectUnparsedBatch")
+  | ["ifnil", "s.orderManager.PendingBatch#0", calls, _] => .ifnilBatch (calls == "s.sendRejectUnparsedBatch")
   | ["call", "order.ParseRPCSign", _] => .parse
-  | ["assign", "batch.ServerNonces", _] => .assignNonces
-  | ["assign", "batch.PreviousOutputs", _] => .assignPrev
+  | ["assign", "s.orderManager.PendingBatch#0.ServerNonces", "order.ParseRPCSign#0"] => .assignNonces
+  | ["assign", "s.orderManager.PendingBatch#0.PreviousOutputs", "order.ParseRPCSign#1"] => .assignPrev
   | ["call", "s.server.fundingManager.BatchChannelSetup", _] => .chanSetup
   | ["call", "s.orderManager.BatchSign", _] => .batchSign
-  | ["call", "s.sendSignBatch", "batch,sigs,nonces,channelKeys"] => .sendSign
-  | ["iferr", "s.sendRejectBatch", _] => .iferrReject
-  | ["iferr", _, _] => .iferrReturn
-  | ["return", _] => .ret
+  | ["call", "s.sendSignBatch", _, "s.orderManager.BatchSign#0", "s.orderManager.BatchSign#1", _] => .sendSign
+  | "iferr" :: "s.sendRejectBatch" :: _ => .iferrReject
+  | "iferr" :: _ => .iferrReturn
+  | "return" :: _ => .ret
   | _ => .skip
 
 def hStep (env : HEnv) (x : HS) (stmt : HStmt) : HS :=
